@@ -23,7 +23,11 @@ PAR = max(1, min(6, NCPU // 2))  # concurrent single-worker TLC processes (MC in
 
 
 def _key(r, s):
-    return {"clause": r["clause"], "op": r["op"], "f": r["f"], "exc": s["exc"], "offset_in": r["offin"]}
+    key = {"clause": r["clause"], "op": r["op"], "f": r["f"], "exc": s["exc"], "offset_in": r["offin"]}
+    if r["op"] == "gin":  # generic in-place family: the variant and the kind of target dtype belong to the call site
+        key["variant"] = r["e"]
+        key["target_int"] = bool(r["tint"])
+    return key
 
 
 def _short(s):
@@ -51,7 +55,7 @@ def _validate(ck, hists, obs, label):
     from concurrent.futures import ThreadPoolExecutor
 
     def judge(off):
-        part = steps[off : off + CHUNK]
+        part = steps[off : off + CHUNK]  # noqa: F821 - CHUNK is bound below, before the pool starts
         path = ck.write_json(f"steps_{label}_{off}.json", part)
         res = ck.tlc("Trace_C18", env={"STEPS": path}, workers=1, coverage=False, label=f"trace validation {label} [{off}:{off + len(part)}]", timeout=1800)
         os.unlink(path)
@@ -59,6 +63,8 @@ def _validate(ck, hists, obs, label):
             raise MachineryFailure(f"trace validation consumed {res.distinct - 1} of {len(part)} steps")
         return off, part, res
 
+    # one round of concurrent TLC processes where possible (chunking groups the steps, it does not affect verdicts)
+    CHUNK = max(4000, min(12000, -(-len(steps) // PAR)))
     offs = list(range(0, len(steps), CHUNK))
     with ThreadPoolExecutor(max_workers=PAR) as ex:
         judged = list(ex.map(judge, offs))  # verdicts are processed in chunk order: deterministic
@@ -81,12 +87,13 @@ def _validate(ck, hists, obs, label):
     return len(steps)
 
 
-INPLACE = {"convert_to_units", "convert_to_base", "convert_to_cgs", "convert_to_mks", "convert_to_equivalent", "iop", "ufunc_out", "unary_out", "setitem0", "setitemall", "copyto", "put", "putmask", "fill_diagonal"}
+INPLACE = {"gin", "convert_to_units", "convert_to_base", "convert_to_cgs", "convert_to_mks", "convert_to_equivalent", "iop", "ufunc_out", "unary_out", "setitem0", "setitemall", "copyto", "put", "putmask", "fill_diagonal"}
 
 
 GEN = ["gufunc", "gunary", "garrfn", "gmethod"]  # generic copying families (frame-only)
+GIN = ["gin"]  # generic in-place family (frame-only)
 NONG = ["in_units", "to", "to_value", "in_base", "in_cgs", "in_mks", "to_equivalent", "binop", "ufunc", "unary", "copy", "concatenate", "dot", "clip",
-        "umul", "udiv", "upow", "ubase", "ucoeff", "ucopy", "usimplify", "units_simplify"] + sorted(INPLACE)
+        "umul", "udiv", "upow", "ubase", "ucoeff", "ucopy", "usimplify", "units_simplify"] + sorted(INPLACE - {"gin"})
 
 
 def _set(xs):
@@ -163,7 +170,17 @@ def run(ck):
         name2 = _cfg(ck, "MC_C18_t2", 1, ["f8", "i2"], ["i8", "i4"], ["lb", "lr"], ["la", "oc"], ["ta"], ["i4"], NONG)
         nameg2 = _cfg(ck, "MC_C18_tg2", 1, ["f8", "i8"], ["f8"], ["oc", "lr"], ["K", "oc"], ["na"], ["f8"], GEN)
         nameg = _cfg(ck, "MC_C18_tg", 1, ["f8", "f4", "i8"], ["f8", "f4"], ["la", "lb"], ["lb"], ["la"], ["f8"], GEN)
-    insts = [("step", name, f"single step: configurations x call catalogue ({name})"), ("step", name2, f"single step: configurations x call catalogue ({name2})"),
+    # generic in-place family: array functions / methods / ufunc forms with out=, item assignment and the in-place array
+    # functions, each with NumPy-level refusals (wrong-shaped or wrong-dtype target, out-of-bounds index, read-only target,
+    # wrong number of outputs, casting="no", bad mask); the targets carry a unit different from the would-be result's
+    if ck.tier == "quick":
+        namei = _cfg(ck, "MC_C18_qi", 1, ["f8"], ["f8"], ["la"], ["lb"], ["la"], ["f8", "i8"], GIN)
+        namei2 = _cfg(ck, "MC_C18_qi2", 1, ["f8"], ["f8"], ["oc"], ["lb"], ["la"], ["f8"], GIN)
+    else:
+        namei2 = _cfg(ck, "MC_C18_ti2", 1, ["i8"], ["f8"], ["lr"], ["la"], ["na"], ["i8"], GIN)
+        namei = _cfg(ck, "MC_C18_ti", 1, ["f8", "i8"], ["f8"], ["la", "oc", "lb"], ["lb", "K"], ["la"], ["f8", "i8"], GIN)
+    insts = [("step", name, f"single step: configurations x call catalogue ({name})"), ("step", namei, f"single step: configurations x generic in-place family ({namei})"),
+             ("step", namei2, f"single step: configurations x generic in-place family ({namei2})"), ("step", name2, f"single step: configurations x call catalogue ({name2})"),
              ("step", nameg, f"single step: configurations x generic copying families ({nameg})"),
              ("step", nameg2, f"single step: configurations x generic copying families ({nameg2})")]
     # 2a. "new object" really new?  every copying call that returns an array, followed by every in-place call on the result R
